@@ -8,7 +8,7 @@ import (
 )
 
 func init() {
-	register("C11", "Decided: a call can block for ever only at a blocking operation, and the package has a small enumerable set of them. R-C11-1 every wait for an acknowledgement is a three-way select (connection-closed channel of the client written to / Done() of the call's own context / the registered waiter) whose non-waiter cases return errors, the cancelled case reporting ctx.Err() of that context; R-C11-2 every other blocking channel operation of the package is classified by a table with one reason each, anything unclassified is a violation; R-C11-3 no channel wait happens while a mutex is held except under muConnecting, and a mutex that is held across a wait is acquired exclusively only by Connect; R-C11-4 the reader goroutine closes the transport and then closes the Done() channel on every path without blocking in between, and that close has exactly one site; R-C11-5 the lock-order graph is acyclic; R-C11-6 user callbacks run with no library mutex held; R-C11-7 closing is unconditional: BaseClient.Close closes the transport on every path and so does Disconnect once DISCONNECT was written (otherwise a peer that keeps its side open leaves Done() open). Not decided: blocking inside Transport.Read/Write or user callbacks; 'promptly' as a duration.", checkC11)
+	register("C11", "Decided: a call can block for ever only at a blocking operation, and the package has a small enumerable set of them. R-C11-1 every wait for an acknowledgement is a three-way select (connection-closed channel of the client written to / Done() of the call's own context / the registered waiter) whose non-waiter cases return errors, the cancelled case reporting ctx.Err() of that context; R-C11-2 every other blocking channel operation of the package is classified by a table with one reason each, anything unclassified is a violation; R-C11-3 no channel wait happens while a mutex is held except under muConnecting, and a mutex that is held across a wait is acquired exclusively only by Connect; R-C11-4 the reader goroutine closes the transport and then closes the Done() channel on every path without blocking in between, and that close has exactly one site; R-C11-5 the lock-order graph is acyclic; R-C11-6 user callbacks run with no library mutex held; R-C11-7 closing is unconditional: BaseClient.Close closes the transport on every path and so does Disconnect once DISCONNECT was written (otherwise a peer that keeps its side open leaves Done() open). R-C11-8 the remaining-length field is bounded (a malformed length is a protocol error that ends the link, not a 256 MiB read). Not decided: blocking inside Transport.Read/Write or user callbacks; 'promptly' as a duration.", checkC11)
 }
 
 type blockingOp struct {
@@ -51,6 +51,8 @@ func checkC11(r *Run) {
 	r2.Floor(5)
 	c.ruleCallbacksUnlocked(r6)
 	c.ruleCloseUnconditional(r7)
+	r8 := r.Rule("R-C11-8", "a malformed length ends the link instead of stalling it: the remaining-length field is bounded to four bytes (R-C06-2), so the reader never waits for a body the peer cannot have meant to send")
+	c.ruleBodyLengthBound(r8)
 	sites := c.sitesOrLost(r1)
 	c.ruleThreeWaySelect(r1, nil, sites)
 
